@@ -200,13 +200,15 @@ class EngineBase:
         if goal is True:
             return
         goal = ops.asz(goal)
+        info = dict(info or {})
+        info['rec_ctx'] = bool(getattr(self, 'rec_used', False))   # some recursive spec function was applied so far
         self.obs.append(Obligation(name, st.pc, goal, info))
 
     def canary(self, st, name):
         self.flush_axioms(st)
         if self.dry:
             return
-        self.obs.append(Obligation(name, st.pc, None, kind='canary'))
+        self.obs.append(Obligation(name, st.pc, None, {'rec_ctx': bool(getattr(self, 'rec_used', False))}, kind='canary'))
 
     def feasible(self, st):
         """Quick satisfiability check of the path condition (unknown => keep)."""
